@@ -336,7 +336,7 @@ func runC13(c *Ctx) {
 	for i := 0; i < nf; i++ {
 		cr := revs[r.Intn(len(revs))]
 		for _, rep := range []string{"delayed", "delayed-split"} {
-			h := hsCase{ClientRev: cr, ServerRev: 54460, Reply: rep, DB: "db", User: "u", Pw: "p", Quota: "k", ReadToMs: 30, HsToMs: 1500, DelayMs: 90 + 40*i}
+			h := hsCase{ClientRev: cr, ServerRev: 54460, Reply: rep, DB: "db", User: "u", Pw: "p", Quota: "k", ReadToMs: 30, HsToMs: 1500, DelayMs: 90 + (40*i)%800}
 			c13Case(c, r.Fork(), h)
 			// the dial timeout bounds dialing only, not the handshake
 			h.DialToMs, h.ReadToMs = 40, 800
